@@ -554,6 +554,16 @@ def fold(t):
     if not isinstance(t, tuple):
         return t
     k = t[0]
+    if k == "index" and len(t) == 3:
+        # element of a constant byte array / string: CONST[i]
+        base, i = t[1], _cint(t[2])
+        while isinstance(base, tuple) and base[0] == "ref":
+            base = base[1]
+        if i is not None and isinstance(base, tuple) and base[0] == "const" and base[1][0] == "bytes" and 0 <= i < len(base[1][1]):
+            return ("const", ("int", base[1][1][i], "u8"))
+        if i is not None and isinstance(base, tuple) and base[0] == "agg" and base[1] == "array" and 0 <= i < len(base[4]):
+            return base[4][i]
+        return t
     if k == "bin":
         a, b = _cint(t[2]), _cint(t[3])
         op = t[1]
@@ -1376,6 +1386,26 @@ class Program:
                 # generic parameter names are not part of a function's identity (moving a method between impl blocks renames them)
                 return _norm_generics(path) not in known and "::tests::" not in path and "{closure" not in path
             self.inlined = inline_helpers(facts, is_new)
+            if self.inlined:
+                # closures of an inlined helper that has one caller are that caller's closures now (so that a site inside
+                # them keeps the identity it had before the helper was extracted)
+                callers = {}
+                for f_, c_ in self.inlined:
+                    if c_ not in ("map", "and_then", "or_else", "unwrap_or_else"):
+                        callers.setdefault(c_, set()).add(f_)
+                have_paths = {b["path"] for b in facts["bodies"]}
+                cren = {}
+                for b in facts["bodies"]:
+                    if b["kind"] != "closure" or "::{closure#" not in b["path"]:
+                        continue
+                    owner, _, suffix = b["path"].partition("::{closure#")
+                    cs = callers.get(owner)
+                    if cs and len(cs) == 1:
+                        np_ = list(cs)[0] + "::{closure#" + suffix
+                        if np_ not in have_paths and np_ not in cren.values():
+                            cren[b["path"]] = np_
+                if cren:
+                    facts = _replace_paths(facts, cren)
             if self.inlined:
                 gone = {c for _, c in self.inlined}
                 # the helper bodies stay available (their closures may be referenced) but are no longer analysed as functions of their own
